@@ -27,6 +27,7 @@ func init() {
 			"C13.R4 flow-insensitive dependence slice (through memory of locals and pointer arguments of calls) of each analysis field store",
 			"C13.R5 freshness of slices stored into records",
 			"C13.R7 exactness of integer divisions: every integer division by a constant in the backward slice of a stored summary quantity (followed into module helpers) has a dividend that the constant always divides; decided by evaluating the dividend's one-unknown polynomial at 0..47, a non-multiple is the reported witness",
+			"C13.R9 a DataSegment that is replaced as a whole through a pointer parameter is one made on the spot whose assigned fields (constructor plus later assignments) include every field of the type that is read anywhere in the module (signedness, scale, dropped frames survive decimation)",
 			"C13.R8 no arithmetic (+ - * <<) in an 8- or 16-bit integer type anywhere in the value slice of a summary quantity, helpers included: samples are widened first",
 			"C13.R6 sample ranges: the SSA slice of each pre-trigger quantity reads the record's vector only at indices [0, presamples), that of each post-trigger quantity only at [presamples, len) (cut at the pre-trigger mean); whole-vector reads are reported",
 		},
@@ -42,6 +43,7 @@ func runC13(p *Prog, r *Report) {
 	r.MinInstances["C13.R5"] = 1
 	r.MinInstances["C13.R6"] = 5
 	r.MinInstances["C13.R8"] = 5
+	defer c13R9(p, r)
 	r.MinInstances["C13.R7"] = 5
 	c13R1(p, r)
 	c13R2(p, r)
@@ -338,6 +340,10 @@ type depCtx struct {
 	memo    map[ssa.Value]map[string]bool
 	writers map[string][]ssa.Value // memory object -> values that may flow into it
 	ids     map[ssa.Value]int
+	depth   int // nesting of helper summaries
+	// followCalls: results of module helpers also depend on what the helpers read (set for the
+	// analysis function itself, not for the callers that supply its arguments)
+	followCalls bool
 }
 
 func isRefLike(t types.Type) bool {
@@ -485,6 +491,46 @@ func (d *depCtx) deps(v ssa.Value) map[string]bool {
 				}
 			}
 		}
+		// what a module helper returns (or writes into what it is handed) also depends on what the
+		// helper itself reads: `samples = recordSamples(buf, rec)` depends on rec.data
+		if call, ok := v.(*ssa.Call); ok && d.depth < 2 && d.followCalls {
+			if g := call.Call.StaticCallee(); isModuleFn(g) && !call.Call.IsInvoke() && len(g.Blocks) > 0 && len(g.Params) == len(call.Call.Args) && g != d.fn {
+				cd := newDepCtx(g)
+				cd.depth = d.depth + 1
+				cd.followCalls = true
+				sub := map[string]bool{}
+				Instrs(g, func(in ssa.Instruction) {
+					switch x := in.(type) {
+					case *ssa.Return:
+						for _, rv := range x.Results {
+							for k := range cd.closure(rv) {
+								sub[k] = true
+							}
+						}
+					case *ssa.Store:
+						if al, isAl := addrRoot(x.Addr).(*ssa.Alloc); isAl && !al.Heap {
+							return
+						}
+						for k := range cd.closure(x.Val) {
+							sub[k] = true
+						}
+					}
+				})
+				for k := range sub {
+					if strings.HasPrefix(k, "param:") {
+						for i, q := range g.Params {
+							// (a reference parameter stands for an object: what the helper reads of it
+							// is already recorded field by field)
+							if "param:"+q.Name() == k && !isRefLike(q.Type()) {
+								add(d.deps(call.Call.Args[i]))
+							}
+						}
+						continue
+					}
+					m[k] = true
+				}
+			}
+		}
 	}
 	return m
 }
@@ -551,6 +597,7 @@ func c13R3R4R5(p *Prog, r *Report) {
 		nfn++
 		r.Fn(FuncName(fn))
 		d := newDepCtx(fn)
+		d.followCalls = true
 		var fields []string
 		for f := range stores {
 			fields = append(fields, f)
@@ -617,59 +664,76 @@ func c13R3R4R5(p *Prog, r *Report) {
 				}
 			}
 		}
-		// R3: sample -> float64 conversions
+		// R3: sample -> float64 conversions, here or in a helper that is handed the record
+		r3hosts := []*ssa.Function{fn}
 		Instrs(fn, func(in ssa.Instruction) {
-			cv, ok := in.(*ssa.Convert)
-			if !ok {
-				return
-			}
-			if b, ok := cv.Type().Underlying().(*types.Basic); !ok || b.Kind() != types.Float64 {
-				return
-			}
-			// operand derives from an element of rec.data?
-			src := cv.X
-			viaInt16 := false
-			if c2, ok := src.(*ssa.Convert); ok {
-				if b, ok := c2.Type().Underlying().(*types.Basic); ok && b.Kind() == types.Int16 {
-					viaInt16 = true
-					src = c2.X
-				}
-			}
-			isSample := false
-			if ld, ok := src.(*ssa.UnOp); ok && ld.Op == token.MUL {
-				if ia, ok := ld.X.(*ssa.IndexAddr); ok {
-					if _, f, _, ok := FieldOf(ia.X); ok && f == "data" {
-						isSample = true
-					}
-				}
-			}
-			if e, ok := src.(*ssa.Extract); ok { // range value
-				if nx, ok := e.Tuple.(*ssa.Next); ok {
-					if rg, ok := nx.Iter.(*ssa.Range); ok {
-						if _, f, _, ok := FieldOf(rg.X); ok && f == "data" {
-							isSample = true
+			if cc := CallOf(in); cc != nil && !cc.IsInvoke() {
+				if h := cc.StaticCallee(); isModuleFn(h) && h != fn && len(h.Blocks) > 0 {
+					for _, q := range h.Params {
+						if typeName(q.Type()) == rec.Obj().Name() {
+							r3hosts = append(r3hosts, h)
 						}
 					}
 				}
 			}
-			if !isSample {
-				return
+		})
+		for _, r3fn := range r3hosts {
+			if r3fn != fn {
+				r.Fn(FuncName(r3fn))
 			}
-			good := false
-			for _, ci := range controllingIfs(cv.Block()) {
-				if _, f, _, ok := FieldOf(ci.If.Cond); ok && f == "signed" {
-					if (ci.Branch == 0) == viaInt16 {
-						good = true
+			Instrs(r3fn, func(in ssa.Instruction) {
+				cv, ok := in.(*ssa.Convert)
+				if !ok {
+					return
+				}
+				if b, ok := cv.Type().Underlying().(*types.Basic); !ok || b.Kind() != types.Float64 {
+					return
+				}
+				// operand derives from an element of rec.data?
+				src := cv.X
+				viaInt16 := false
+				if c2, ok := src.(*ssa.Convert); ok {
+					if b, ok := c2.Type().Underlying().(*types.Basic); ok && b.Kind() == types.Int16 {
+						viaInt16 = true
+						src = c2.X
 					}
 				}
-			}
-			arm := "unsigned"
-			if viaInt16 {
-				arm = "signed (through int16)"
-			}
-			r.Check(good, "C13.R3", FuncName(fn)+" "+arm+" sample conversion", p.InstrPos(cv), "under the matching arm of the record's signed flag",
-				"a record sample is converted to float64 as "+arm+" without being on the matching arm of a test of the record's signed flag: signed channels are analysed as unsigned or vice versa")
-		})
+				isSample := false
+				if ld, ok := src.(*ssa.UnOp); ok && ld.Op == token.MUL {
+					if ia, ok := ld.X.(*ssa.IndexAddr); ok {
+						if _, f, _, ok := FieldOf(ia.X); ok && f == "data" {
+							isSample = true
+						}
+					}
+				}
+				if e, ok := src.(*ssa.Extract); ok { // range value
+					if nx, ok := e.Tuple.(*ssa.Next); ok {
+						if rg, ok := nx.Iter.(*ssa.Range); ok {
+							if _, f, _, ok := FieldOf(rg.X); ok && f == "data" {
+								isSample = true
+							}
+						}
+					}
+				}
+				if !isSample {
+					return
+				}
+				good := false
+				for _, ci := range controllingIfs(cv.Block()) {
+					if _, f, _, ok := FieldOf(ci.If.Cond); ok && f == "signed" {
+						if (ci.Branch == 0) == viaInt16 {
+							good = true
+						}
+					}
+				}
+				arm := "unsigned"
+				if viaInt16 {
+					arm = "signed (through int16)"
+				}
+				r.Check(good, "C13.R3", FuncName(r3fn)+" "+arm+" sample conversion", p.InstrPos(cv), "under the matching arm of the record's signed flag",
+					"a record sample is converted to float64 as "+arm+" without being on the matching arm of a test of the record's signed flag: signed channels are analysed as unsigned or vice versa")
+			})
+		}
 	}
 	if nfn == 0 {
 		r.Bad("C13.R4", "analysis function", "-", "no function stores the per-record analysis values")
@@ -742,6 +806,7 @@ func c13R6(p *Prog, r *Report) {
 			o, f, _, ok := FieldOf(v)
 			return ok && o == rec.Obj().Name() && f == "presamples"
 		}
+		longCopy := "" // a sample copy whose length is not shown to be the record's
 		// sampleSlice: v is the record's raw sample slice (rec.data, possibly handed to a helper),
 		// whole or as one window [lo, hi)
 		var sampleSlice func(v ssa.Value, depth int) (ok bool, lo, hi ssa.Value, win bool)
@@ -759,6 +824,15 @@ func c13R6(p *Prog, r *Report) {
 			}
 			if o, f, _, ok := FieldOf(v); ok && o == rec.Obj().Name() && f == "data" {
 				return true, nil, nil, false
+			}
+			// a float copy of the record's samples made by a helper (same positions, same length)
+			if call, isCall := v.(*ssa.Call); isCall {
+				if isCopy, lenOK := c13SampleCopy(call, rec.Obj().Name()); isCopy {
+					if !lenOK {
+						longCopy = p.InstrPos(call)
+					}
+					return true, nil, nil, false
+				}
 			}
 			return false, nil, nil, false
 		}
@@ -996,6 +1070,9 @@ func c13R6(p *Prog, r *Report) {
 			if bad == "" && nread == 0 {
 				bad = "no read of the record's samples found in the value's computation"
 			}
+			if bad == "" && longCopy != "" && want == "post" {
+				bad = "read of a copy of the samples (made at " + longCopy + ") whose length is not the record's own: reused for records of different lengths it still holds the tail of an earlier, longer record, and the window [presamples, len) then takes in"
+			}
 			r.Check(narrowAt == "", "C13.R8", FuncName(fn)+" "+f+" is computed without 16-bit arithmetic on samples", p.InstrPos(st),
 				"samples are widened (to float64 or a wider integer) before any sum, difference or product",
 				f+" is computed with arithmetic carried out in a 16-bit (or narrower) integer type at "+narrowAt+": the result wraps modulo 65536 as soon as the operands are more than half of full scale apart (a baseline step, a large pulse), so the quantity is wrong for such records")
@@ -1153,4 +1230,88 @@ func c13R7(p *Prog, r *Report) {
 		}
 	}
 	_ = n
+}
+
+// c13SampleCopy: the call returns a slice into which the helper has written, position by
+// position, a conversion of the samples of the record it was handed (rec.data[i] -> out[i]);
+// lenOK: every return hands the slice out with exactly len(rec.data) elements.
+func c13SampleCopy(call *ssa.Call, recName string) (isCopy, lenOK bool) {
+	h := call.Call.StaticCallee()
+	if !isModuleFn(h) || call.Call.IsInvoke() || len(h.Blocks) == 0 {
+		return false, false
+	}
+	if _, isSl := call.Type().Underlying().(*types.Slice); !isSl {
+		return false, false
+	}
+	hasRec := false
+	for _, q := range h.Params {
+		if typeName(q.Type()) == recName {
+			hasRec = true
+		}
+	}
+	if !hasRec {
+		return false, false
+	}
+	// element stores out[i] = f(rec.data[i]) with the same index
+	stores, good := 0, true
+	Instrs(h, func(in ssa.Instruction) {
+		st, ok := in.(*ssa.Store)
+		if !ok {
+			return
+		}
+		ia, ok := st.Addr.(*ssa.IndexAddr)
+		if !ok {
+			return
+		}
+		if _, isF := ia.X.Type().Underlying().(*types.Slice); !isF {
+			return
+		}
+		stores++
+		// the value derives from rec.data at the same index
+		same := false
+		seen := map[ssa.Value]bool{}
+		var walk func(v ssa.Value, d int)
+		walk = func(v ssa.Value, d int) {
+			if v == nil || seen[v] || d > 8 {
+				return
+			}
+			seen[v] = true
+			if ld, isLd := v.(*ssa.UnOp); isLd && ld.Op == token.MUL {
+				if src, isIA := ld.X.(*ssa.IndexAddr); isIA && src.Index == ia.Index {
+					if o, f, _, okf := FieldOf(src.X); okf && o == recName && f == "data" {
+						same = true
+					}
+				}
+			}
+			if x, isIn := v.(ssa.Instruction); isIn {
+				var ops []*ssa.Value
+				for _, o := range x.Operands(ops) {
+					walk(*o, d+1)
+				}
+			}
+		}
+		walk(st.Val, 0)
+		good = good && same
+	})
+	if stores == 0 || !good {
+		return false, false
+	}
+	// the length handed out
+	hc := NewPolyCtx(h)
+	lenOK = true
+	nret := 0
+	Instrs(h, func(in ssa.Instruction) {
+		ret, ok := in.(*ssa.Return)
+		if !ok || len(ret.Results) == 0 || ret.Block() == h.Recover {
+			return
+		}
+		nret++
+		l := hc.lenOf(ret.Results[0])
+		okL := false
+		if syms := l.Symbols(); len(l) == 1 && len(syms) == 1 && l[syms[0]] == 1 && strings.HasPrefix(syms[0], "len(") && strings.HasSuffix(basePath(strings.TrimSuffix(strings.TrimPrefix(syms[0], "len("), ")")), ".data") {
+			okL = true
+		}
+		lenOK = lenOK && okL
+	})
+	return true, lenOK && nret > 0
 }
